@@ -19,7 +19,9 @@ LEVEL_TEXT = ('Theorems in coq/theories/Properties/C18.v for all frames, shapes 
               'dark frame without FPN = floor(rate); power_spectrum output is 0 outside the mask with sum of squares '
               'rms^2*count and RMS over its support exactly |rms|; shot-noise guards (negative / above 9.223372006484771e18 '
               '=> ValueError) and output = floor(draw) >= 0 (Poisson) or the int64 cast of the draw (Gaussian); cosmic-ray '
-              'frame has the requested shape and is a sum of non-negative deposits. Seed reproducibility is structural in the '
+              'frame has the requested shape and is a sum of non-negative deposits; entry points: refusal order (method string, seed, '
+              'frame / scale / dimensions), every shape form of dark_current, mask rank, number of cosmic rays and generator consumption. '
+              'Seed reproducibility is structural in the '
               'model and is checked on the implementation (global generator neither read nor advanced).')
 LEVEL_NOTE = ('Trusted: Coq kernel + stdlib Reals axioms, extraction, harness; numpy Generator (deterministic in seed and request, '
               'Poisson draws non-negative integers, lognormal positive) is an oracle with a stated contract. Means/variances and '
@@ -28,7 +30,9 @@ LEVEL_NOTE = ('Trusted: Coq kernel + stdlib Reals axioms, extraction, harness; n
 TRUSTED = ['Coq 8.16.1 kernel (coqc; coqchk in the thorough tier)',
            'extraction with ExtrOcamlBasic only; ocaml/driver.ml',
            'ORACLE numpy.random.default_rng(seed): deterministic in (seed, request); poisson draws are non-negative integers; '
-           'lognormal draws are positive; normal(scale<0) raises ValueError. Never proved, re-queried by the harness on every case',
+           'lognormal draws are positive; normal(scale<0) raises ValueError; default_rng raises ValueError for a negative integer seed '
+           '(alone or in a sequence) and TypeError for a float; np.ones / lognormal raise ValueError for a negative dimension; the '
+           'global MT19937 stream is advanced by one double per np.random.uniform()/rand(). Never proved, re-queried by the harness on every case',
            'harness/props/c18.py: codec; transcription of wfe.py lines 44-65 (frequency grid, PSD filter, FFT) that turns the '
            'normal draw into the filtered draw handed to the model; the float value of np.sqrt(count/ss) is an oracle input '
            'whose square is checked against the model\'s exact count/ss to 1e-12; transcription of the cosmic-ray geometry '
@@ -54,7 +58,26 @@ TOL = 1e-12
 # ------------------------------------------------------------------ helpers
 def seed_of(c):
     s = c['seed']
-    return list(s) if isinstance(s, list) else int(s)
+    if isinstance(s, list):
+        return list(s)
+    return s if isinstance(s, float) else int(s)
+
+
+def seed_error(s):
+    """what numpy.random.default_rng(seed) does with the seeds the cases use (the oracle's contract)"""
+    if isinstance(s, float):
+        return 'TypeError'
+    if isinstance(s, list):
+        return 'ValueError' if any(v < 0 for v in s) else None
+    return 'ValueError' if s < 0 else None
+
+
+def enc_seed(s):
+    if isinstance(s, float):
+        return [2]
+    if isinstance(s, list):
+        return [1, len(s)] + [int(v) for v in s]
+    return [0, int(s)]
 
 
 def _try(f):
@@ -199,11 +222,21 @@ def wrap(a, kind):
     raise ValueError(kind)
 
 
+def entry_mask(shape):
+    """a mask of any rank: ones with a hole in the first sample"""
+    a = np.ones(tuple(shape))
+    if a.size > 1:
+        a.flat[0] = 0.0
+    return a
+
+
 def raw_arr(x):
     """a frame stored in a case: a number, nested lists, or a generative description of a big frame
     ({'kind','shape','fseed','lit','level','poke'}: deterministic, so the case stays self-contained)"""
     if not isinstance(x, dict):
         return np.array(x, dtype=float)
+    if 'any_rank' in x:
+        return entry_mask(x['any_rank'])
     g = np.random.default_rng(x['fseed'])
     n, m = x['shape']
     if x['kind'] == 'disc':
@@ -274,7 +307,9 @@ def dark_shape2(c):
 
 
 def dark_draw(c):
-    shp = dark_shape(c) or 1
+    shp = dark_shape(c)
+    if shp is None:
+        shp = 1
     if c['fpn'] > 0:
         return np.random.default_rng(seed_of(c)).lognormal(mean=1.0, sigma=c['fpn'], size=shp)
     return np.ones(shp)
@@ -298,7 +333,7 @@ def ps_filtered_draw(n, m, pixelscale, half_power_freq, exp, seed):
 
 
 def ps_inputs(c):
-    mask = raw_arr(c['mask'])
+    mask = entry_mask(c['mask_shape']) if c.get('entry') else raw_arr(c['mask'])
     n, m = mask.shape
     filt = ps_filtered_draw(n, m, c['pixelscale'], c['hpf'], c['exp'], seed_of(c))
     opd = filt * mask
@@ -321,17 +356,24 @@ def cosmic_deposits(c):
 
 
 def _cosmic_deposits(c, D):
+    """returns (x, u, rays, expected number of doubles consumed, nrays); each ray = (particle draw, [(row, col, dist)]);
+    two candidate rays more than the code uses are traced by continuing the stream (the model must not use them)"""
     shape = tuple(c['shape'])
     pixelscale = np.asarray(c['pixelscale'], dtype=float)
     np.random.seed(c['gseed'])
     np.random.random(c['advance'])
     area = shape[0] * pixelscale[0] * shape[1] * pixelscale[1]
-    nrays = area * c['rate'] * c['ts']
-    if nrays < 1:
-        nrays = 1 if np.random.uniform() <= nrays else 0
+    x = area * c['rate'] * c['ts']
+    u = 0.0
+    if x < 1:
+        u = np.random.uniform()
+        nrays = 1 if u <= x else 0
+    else:
+        nrays = int(x)
+    consumed = (1 if x < 1 else 0) + 5 * nrays
     rays = []
-    for _ in range(int(nrays)):
-        flux = c['alpha_flux'] if np.random.uniform() > 0.9 else c['proton_flux']
+    for _ in range(nrays + 2):
+        part = np.random.uniform()
         r = np.random.rand() * (shape[0] - 1)
         cc = np.random.rand() * (shape[1] - 1)
         position = np.array([r, cc, 0])
@@ -343,15 +385,15 @@ def _cosmic_deposits(c, D):
         direction /= np.linalg.norm(direction)
         extent = (0, shape[0] - 1, 0, shape[1] - 1, 0, -1)
         ray = D._propagate_ray(position, direction, extent)
-        deps = []
+        segs = []
         for i in range(ray.shape[0] - 1):
             dr = (ray[i + 1][0] - ray[i][0]) * pixelscale[0]
             dc = (ray[i + 1][1] - ray[i][1]) * pixelscale[1]
             dz = (ray[i + 1][2] - ray[i][2]) * pixelscale[2]
             dist = np.sqrt(dr ** 2 + dc ** 2 + dz ** 2)
-            deps.append((int(np.floor(ray[i + 1][0])), int(np.floor(ray[i + 1][1])), float(flux), float(dist)))
-        rays.append(deps)
-    return rays
+            segs.append((int(np.floor(ray[i + 1][0])), int(np.floor(ray[i + 1][1])), float(dist)))
+        rays.append((float(part), segs))
+    return float(x), float(u), rays, consumed, nrays
 
 
 # ------------------------------------------------------------------ generation
@@ -645,7 +687,43 @@ def container_cases(rng, tier):
         yield {'op': 'dark', 'seed': rnd_seed(rng), 'rate': 100.7, 'shape': [1, 1], 'fpn': rng.choice([0.0, 0.2])}
 
 
+def rnd_any_seed(rng):
+    t = rng.random()
+    if t < 0.45:
+        return rnd_seed(rng)
+    if t < 0.65:
+        return rng.choice([-1, -5, -2 ** 40])
+    if t < 0.8:
+        return rng.choice([1.5, 0.5, 3.0, -2.5])
+    if t < 0.9:
+        return [rng.randint(0, 99), -rng.randint(1, 9)]
+    return 0
+
+
+def entry_cases(rng, tier):
+    """argument validation and refusal ORDER at the public entry points: method strings, seeds default_rng refuses,
+    illegal frames, negative scales, every shape form (int, any rank, empty tuple, negative / zero dimensions), masks of
+    any rank - and combinations of several illegal arguments at once (which error wins)"""
+    ke = 30 if tier == 'quick' else 300
+    for _ in range(ke):
+        n, m = rnd_shape(rng, 4)
+        method = rng.choice(['poisson', 'gaussian', 'poisson', 'gaussian', 'Poisson', 'GAUSSIAN', 'normal', '', 'poisson ',
+                             'gauss', 'poissonn'])
+        yield {'op': 'shot', 'entry': True, 'method': method, 'seed': rnd_any_seed(rng), 'img': rnd_counts(rng, n, m, 'poisson')}
+        yield {'op': 'read', 'entry': True, 'seed': rnd_any_seed(rng),
+               'img': [[float(rng.randint(0, 200)) for _ in range(m)] for _ in range(n)],
+               'electrons': rng.choice([2.5, 0.0, -1.0, -1e-9, 10.0])}
+        shape = rng.choice([None, 1, 5, 0, [n, m], [n, m], [m], [], [2, 1, 2], [n, -m], [-1], [0, m], [n, 0], -3, [1, 1, 1, 2]])
+        yield {'op': 'dark', 'entry': True, 'seed': rnd_any_seed(rng), 'rate': rng.choice([100.7, 7.0, 2.9999999, 0.3]),
+               'shape': shape, 'fpn': rng.choice([0.0, 0.0, 0.25, 0.4, -0.1])}
+        mshape = rng.choice([[n + 1, m + 2], [n + 1, m + 2], [5], [2, 2, 2], [], [0, 3], [3, 0], [1, 1], [1, 4]])
+        yield {'op': 'ps', 'entry': True, 'seed': rnd_any_seed(rng), 'mask_shape': mshape, 'mask_dtype': rng.choice(MASK_DTYPES),
+               'pixelscale': rng.choice(PS_PIXELSCALES), 'rms': rng.choice(PS_RMS), 'hpf': rng.choice(PS_HPFS),
+               'exp': rng.choice(PS_EXPS)}
+
+
 def generate(rng, tier):
+    yield from entry_cases(rng, tier)
     yield from sequences(rng, tier)
     yield from large_cases(rng, tier)
     yield from container_cases(rng, tier)
@@ -733,6 +811,8 @@ def generate(rng, tier):
 
 
 def classify(c):
+    if c.get('entry'):
+        return c['op'] + '/entry'
     if c['op'] == 'seq':
         return 'seq/' + c['calls'][0]['op']
     if c['op'] == 'shot':
@@ -749,6 +829,8 @@ def classify(c):
 
 def nontrivial(c):
     op = c['op']
+    if c.get('entry'):
+        return True
     if op == 'seq':
         return len(c['calls']) > 1
     if op == 'shot':
@@ -767,6 +849,10 @@ def nontrivial(c):
 # ------------------------------------------------------------------ model side
 def case_size(c):
     op = c['op']
+    if c.get('entry') and op == 'ps':
+        return abs(int(np.prod(c['mask_shape']))) if c['mask_shape'] else 1
+    if c.get('entry') and op == 'dark':
+        return abs(int(np.prod(dark_dims(c)))) if dark_dims(c) else 1
     if op in ('shot', 'read'):
         return int(as2d(raw_arr(c['img'])).size) if not isinstance(c['img'], dict) else c['img']['shape'][0] * c['img']['shape'][1]
     if op == 'ps':
@@ -776,10 +862,59 @@ def case_size(c):
     return 1
 
 
+METHODS = ('poisson', 'gaussian')
+
+
+def dark_dims(c):
+    """the dimensions the entry-point model is given: shape=None is the default shape=1"""
+    if c['shape'] is None:
+        return [1]
+    return [c['shape']] if isinstance(c['shape'], int) else list(c['shape'])
+
+
+def encode_entry(c):
+    """cases that go through the entry-point model (Model/NoiseEntry.v): any method string, any seed, any shape form"""
+    op = c['op']
+    serr = seed_error(c['seed'])
+    if op == 'shot':
+        img = img_of(c)
+        d = shot_draw(c) if (c['method'] in METHODS and serr is None) else None
+        if d is None:
+            d = np.zeros(as2d(img).shape)
+        enc_d = enc_arr_int(d) if (c['method'] == 'poisson' and np.asarray(d).dtype.kind in 'iu') else enc_arr_q(d)
+        return [8, len(c['method'])] + [ord(ch) for ch in c['method']] + enc_seed(c['seed']) + enc_arr_q(img) + enc_d
+    if op == 'read':
+        img = img_of(c)
+        d = read_draw(c) if (serr is None and c['electrons'] >= 0) else np.zeros(as2d(img).shape)
+        return [9] + enc_seed(c['seed']) + enc_arr_q(img) + C.enc_q(c['electrons']) + enc_arr_q(d)
+    if op == 'dark':
+        dims = dark_dims(c)
+        sh = [0, c['shape']] if isinstance(c['shape'], int) else ([0, 1] if c['shape'] is None else [1, len(dims)] + dims)
+        flatd = []
+        if c['fpn'] > 0 and serr is None and all(v >= 0 for v in dims):
+            flatd = np.asarray(dark_draw(c), dtype=float).ravel().tolist()
+        out = [10] + C.enc_q(c['rate']) + sh + C.enc_q(c['fpn']) + enc_seed(c['seed']) + [len(flatd)]
+        for v in flatd:
+            out += C.enc_q(v)
+        return out
+    if op == 'ps':
+        dims = list(c['mask_shape'])
+        if serr is None and len(dims) == 2 and dims[0] > 0 and dims[1] > 0:
+            filt, mask, sv = ps_inputs(c)
+            if not np.all(np.isfinite(filt)):
+                return None
+        else:
+            filt, mask, sv = np.zeros((1, 1)), np.zeros((1, 1)), 1.0
+        return [11] + enc_seed(c['seed']) + [len(dims)] + dims + enc_arr_q(filt) + enc_arr_q(mask) + C.enc_q(c['rms']) + C.enc_q(sv)
+    raise ValueError(op)
+
+
 def encode(c):
     op = c['op']
     if op != 'seq' and case_size(c) > MODEL_MAX:
         return None           # decided by the oracle (which re-creates the draws itself)
+    if c.get('entry'):
+        return encode_entry(c)
     if op == 'seq':
         parts = [encode(sub) for sub in c['calls']]
         if any(e is None for e in parts):
@@ -811,12 +946,13 @@ def encode(c):
     if op == 'rule07':
         return None
     if op == 'cosmic':
-        rays = cosmic_deposits(c)
-        out = [6, c['shape'][0], c['shape'][1], len(rays)]
-        for deps in rays:
-            out.append(len(deps))
-            for (r, cc, f, d) in deps:
-                out += [r, cc] + C.enc_q(f) + C.enc_q(d)
+        x, u, rays, _, _ = cosmic_deposits(c)
+        out = [12, c['shape'][0], c['shape'][1]] + C.enc_q(x) + C.enc_q(u) + C.enc_q(c['alpha_flux']) + C.enc_q(c['proton_flux'])
+        out.append(len(rays))
+        for part, segs in rays:
+            out += C.enc_q(part) + [len(segs)]
+            for (r, cc, d) in segs:
+                out += [r, cc] + C.enc_q(d)
         return out
     raise ValueError(op)
 
@@ -849,9 +985,17 @@ def decode(c, ints):
             e['msg'] = rd.z()
         return e
     op = c['op']
+    if op == 'dark' and c.get('entry'):
+        dims = rd.lst(rd.z)
+        return {'dims': dims, 'out': [[rd.z() for _ in range(int(np.prod(dims)) if dims else 1)]]}
+    if op == 'ps' and c.get('entry'):
+        return {'cnt': 0, 'ss': None, 'out': rd.opt(lambda: rd_arr_q(rd))}
+    if op == 'cosmic':
+        out = rd_arr_q(rd)
+        return {'out': out, 'draws': rd.z(), 'nrays': rd.z()}
     if op in ('shot', 'dark'):
         return {'out': rd_arr_z(rd)}
-    if op in ('read', 'cosmic'):
+    if op == 'read':
         return {'out': rd_arr_q(rd)}
     if op == 'ps':
         cnt = rd.z()
@@ -903,7 +1047,7 @@ def call_of(c):
     if op == 'ps':
         dt = {'float': float, 'int': int, 'bool': bool, 'uint8': np.uint8, 'int32': np.int32, 'float32': np.float32,
               'uint16': np.uint16}[c.get('mask_dtype', 'float')]
-        mask = raw_arr(c['mask']).astype(dt)
+        mask = (entry_mask(c['mask_shape']) if c.get('entry') else raw_arr(c['mask'])).astype(dt)
         return guarded(mask, c.get('container'),
                        lambda x: lentil.wfe.power_spectrum(x, c['pixelscale'], c['rms'], c['hpf'], c['exp'], seed=seed_of(c)))
     if op == 'rule07':
@@ -979,11 +1123,21 @@ def run_impl(c):
             np.random.random(c['advance'])
             r = _try(lambda: lentil.detector.cosmic_rays(tuple(c['shape']), tuple(c['pixelscale']), c['ts'], rate=c['rate'],
                                                          proton_flux=c['proton_flux'], alpha_flux=c['alpha_flux']))
+            after = np.random.get_state()
+            # by how many doubles was the global generator advanced?
+            np.random.seed(c['gseed'])
+            np.random.random(c['advance'])
+            consumed = None
+            for k in range(0, 20000):
+                if _state_eq(np.random.get_state(), after):
+                    consumed = k
+                    break
+                np.random.random()
         finally:
             np.random.set_state(saved)
         if r[0] == 'err':
             return {'err': r[1], 'msg': r[2]}
-        return {'out': r[1].tolist(), 'shape': list(r[1].shape)}
+        return {'out': r[1].tolist(), 'shape': list(r[1].shape), 'consumed': consumed}
     raise ValueError(op)
 
 
@@ -1022,6 +1176,8 @@ def compare(c, impl, model):
                 return f'read_noise sample {k}: implementation {x!r}, model {y!r}'
         return None
     if op == 'dark':
+        if 'dims' in model and list(impl['shape']) != list(model['dims']):
+            return f'dark_current frame has shape {impl["shape"]}, model {model["dims"]}'
         a, b = flat(impl['out']), [v for row in model['out'] for v in row]
         if len(a) != len(b):
             return 'sizes differ'
@@ -1038,7 +1194,7 @@ def compare(c, impl, model):
         out = np.asarray(impl['out'], dtype=float)
         if model['out'] is None:
             return None if np.all(np.isnan(out)) else 'model: masked draw identically zero (NaN frame), implementation returned numbers'
-        if model['cnt'] > 0:
+        if model['cnt'] > 0 and model['ss'] is not None:
             _, _, s = ps_inputs(c)
             ratio = Fraction(s) ** 2 * model['ss'] / model['cnt']
             if abs(float(ratio) - 1) > TOL:
@@ -1060,13 +1216,57 @@ def compare(c, impl, model):
         d = float(np.max(np.abs(out - b))) if out.size else 0.0
         if d > TOL * max(float(np.max(np.abs(b))), 1e-300):
             return f'cosmic_rays: frame is not the sum of the deposits, max difference {d:.3g}'
+        if impl.get('consumed') != model['draws']:
+            return (f'cosmic_rays advanced the global generator by {impl.get("consumed")} draws, the model says '
+                    f'{model["draws"]} ({model["nrays"]} rays)')
         return None
     raise ValueError(op)
 
 
 # ------------------------------------------------------------------ direct property oracle (no model)
+def entry_oracle(c, impl):
+    """refusal order of the public entry points, decided from the documented behaviour of numpy alone:
+    returns (decided, message)"""
+    op = c['op']
+    serr = seed_error(c['seed'])
+
+    def want(err, why):
+        return (True, None) if impl.get('err') == err else \
+            (True, f'{op}: expected {err} ({why}), the implementation {"raised " + impl["err"] if "err" in impl else "returned a value"}')
+    if op == 'shot':
+        if c['method'] not in METHODS:
+            return want('AssertionError', f'method {c["method"]!r} is not one of the two methods')
+        if serr:
+            return want(serr, f'seed {c["seed"]!r} is refused by default_rng')
+    if op in ('read', 'ps') and serr:
+        return want(serr, f'seed {c["seed"]!r} is refused by default_rng')
+    if op == 'read' and c['electrons'] < 0:
+        return want('ValueError', 'negative read noise')
+    if op == 'dark':
+        if c['fpn'] > 0 and serr:
+            return want(serr, f'seed {c["seed"]!r} is refused by default_rng')
+        if any(v < 0 for v in dark_dims(c)):
+            return want('ValueError', 'negative dimension')
+    if op == 'ps':
+        dims = list(c['mask_shape'])
+        if len(dims) != 2:
+            return want('ValueError', f'a {len(dims)}-d mask')
+        if dims[0] == 0 or dims[1] == 0:
+            return want('ValueError', 'an empty mask')
+    return (False, None)
+
+
 def oracle(c, impl):
     op = c['op']
+    if c.get('entry'):
+        msg = common_oracle(impl, op)
+        if msg:
+            return msg
+        decided, msg = entry_oracle(c, impl)
+        if decided:
+            return msg
+        if op == 'ps':
+            c = dict(c, mask=entry_mask(c['mask_shape']).tolist())
     if op == 'seq':
         for k, ok in enumerate(impl['same_as_fresh']):
             if not ok:
@@ -1133,8 +1333,8 @@ def oracle(c, impl):
             return msg
         if 'err' in impl:
             return f'dark_current raised {impl["err"]}'
-        out = np.asarray(impl['out'], dtype=float)
-        want = list(dark_shape(c)) if c['shape'] is not None else [1]
+        out = np.asarray(impl['out'], dtype=float).reshape(impl['shape'])
+        want = dark_dims(c)
         if list(out.shape) != want:
             return f'shape {list(out.shape)} is not the requested {want}'
         if not np.all(out == np.floor(out)):
@@ -1142,6 +1342,8 @@ def oracle(c, impl):
         if not c['fpn'] > 0:
             if not np.all(out == math.floor(c['rate'])):
                 return f'dark frame without pattern noise is not floor(rate) = {math.floor(c["rate"])}'
+            return None
+        if out.size == 0:
             return None
         if c['rate'] >= 0 and out.min() < 0:
             return 'dark frame negative'
@@ -1205,6 +1407,10 @@ def oracle(c, impl):
             return 'cosmic-ray frame is not finite'
         if out.min() < 0:
             return f'cosmic-ray frame has negative samples (min {out.min()!r})'
+        _, _, _, expected, nr_ = cosmic_deposits(c)
+        if impl.get('consumed') != expected:
+            return (f'cosmic_rays advanced the global generator by {impl.get("consumed")} draws; {nr_} rays take '
+                    f'{expected} (one for a fractional ray count, five per ray)')
         return None
     return None
 
